@@ -223,3 +223,38 @@ func CSCanonical(region []byte) []byte {
 	}
 	return out
 }
+
+// CSSignaturePackets returns the raw OpenPGP packet bytes inside an armoured signature block.
+func CSSignaturePackets(sigArmor string) ([]byte, error) {
+	blk, err := armor.Decode(strings.NewReader(sigArmor))
+	if err != nil {
+		return nil, err
+	}
+	var buf bytes.Buffer
+	if _, err := buf.ReadFrom(blk.Body); err != nil {
+		return nil, err
+	}
+	return buf.Bytes(), nil
+}
+
+// CSArmorSignature armours the concatenation of raw signature packets as one "PGP SIGNATURE" block (ending in a line end).
+func CSArmorSignature(packets ...[]byte) (string, error) {
+	var buf bytes.Buffer
+	w, err := armor.Encode(&buf, "PGP SIGNATURE", nil)
+	if err != nil {
+		return "", err
+	}
+	for _, p := range packets {
+		if _, err := w.Write(p); err != nil {
+			return "", err
+		}
+	}
+	if err := w.Close(); err != nil {
+		return "", err
+	}
+	s := buf.String()
+	if !strings.HasSuffix(s, "\n") {
+		s += "\n"
+	}
+	return s, nil
+}
